@@ -83,3 +83,35 @@ Theorem C07_kernel_identity_refuted :
   MiniPy.wf w_id_nested = true /\ rw_identity (rw_identity w_id_nested) <> rw_identity w_id_nested.
 Proof. exact RewriteFacts.C07_kernel_identity_refuted. Qed.
 Print Assumptions C07_kernel_identity_refuted.
+
+(** * Positive idempotence of the top-down kernels (Proofs/TdIdem.v) under the decidable guard [sites_clean]: nothing that a
+    site is replaced by contains another site.  (Without it: the `_refuted` theorems above.) *)
+From CM Require Import Proofs.WholeTree Proofs.TdIdem.
+Theorem C07_kernel_empty_seq_idempotent : forall cfg e, sites_clean (empty_seq_f cfg) e = true ->
+  td (empty_seq_f cfg) (td (empty_seq_f cfg) e) = td (empty_seq_f cfg) e.
+Proof. exact empty_seq_idempotent. Qed.
+Print Assumptions C07_kernel_empty_seq_idempotent.
+Theorem C07_kernel_identity_idempotent : forall e, sites_clean identity_f e = true -> rw_identity (rw_identity e) = rw_identity e.
+Proof. exact identity_idempotent. Qed.
+Print Assumptions C07_kernel_identity_idempotent.
+Theorem C07_kernel_set_literal_idempotent : forall e, sites_clean set_literal_f e = true -> rw_set_literal (rw_set_literal e) = rw_set_literal e.
+Proof. exact set_literal_idempotent. Qed.
+Print Assumptions C07_kernel_set_literal_idempotent.
+Example C07_kernel_idempotence_guards :
+  sites_clean (empty_seq_f Types_Kernels.repaired_empty_seq)
+    (MiniPy.EBool true MiniPy.BAnd (MiniPy.ECmp true (MiniPy.EName 1) [(Types_Kernels.Eq, MiniPy.EList [])])
+                  (MiniPy.ENot true (MiniPy.ECmp true (MiniPy.ETuple []) [(Types_Kernels.NotEq, MiniPy.EName 2)]))) = true /\
+  sites_clean (empty_seq_f Types_Kernels.repaired_empty_seq) w_es_nested = false /\
+  sites_clean identity_f w_id_nested = false /\ sites_clean set_literal_f w_set_nested = false.
+Proof. vm_compute. repeat split. Qed.
+
+(** str-concat-in-sequence-literals: the repaired form (7e1e4cc: elements of the updated node) is idempotent on every
+    expression; the pinned form never reached a display nested in a display *)
+From CM Require Import Proofs.StrConcatFacts.
+Theorem C07_kernel_str_concat_idempotent : forall e,
+  rw_str_concat Types_Kernels.repaired_str_concat (rw_str_concat Types_Kernels.repaired_str_concat e) = rw_str_concat Types_Kernels.repaired_str_concat e.
+Proof. exact str_concat_idempotent. Qed.
+Print Assumptions C07_kernel_str_concat_idempotent.
+Theorem C07_kernel_str_concat_pinned_misses_nested : ltac:(let T := type of str_concat_pinned_misses_nested in exact T).
+Proof. exact str_concat_pinned_misses_nested. Qed.
+Print Assumptions C07_kernel_str_concat_pinned_misses_nested.
